@@ -74,6 +74,7 @@ type Contract struct {
 	Atomic2   []string // "atomic mu": all critical sections of lock mu in this function form one atomic step
 	Holds     []string // lock fields of the receiver the caller holds ("holds mu" / "holds mu:r")
 	Unshared  bool     // object under construction: lockset checks off
+	GhostEntry []Clause // "ghost_entry x.f = expr": ghost assignments performed at function entry
 	GhostSet  []Clause // "ghost_assign x.f = expr": ghost assignments performed at every normal exit
 }
 
@@ -121,6 +122,18 @@ type LockDecl struct {
 	Line      int
 }
 
+// SharedDecl: state of objects of type Owner that other threads may change at any time.
+// Invariant holds at every instant; Rely bounds what others may do between two of our steps
+// (our own steps must respect it as well: guarantee == rely).
+type SharedDecl struct {
+	Owner     string
+	Locations []string
+	Invariant string
+	Rely      string
+	Pkg, File string
+	Line      int
+}
+
 type GlobalInv struct {
 	Pkg, Text, File string
 	Line            int
@@ -128,6 +141,7 @@ type GlobalInv struct {
 
 type SpecDB struct {
 	GlobalInvs []*GlobalInv
+	Shared     map[string]*SharedDecl
 	Contracts map[string]*Contract
 	Pure      map[string]*PureFn // key: pkgpath.name and bare name for global ones
 	Axioms    []*Axiom
@@ -138,7 +152,7 @@ type SpecDB struct {
 }
 
 func NewSpecDB() *SpecDB {
-	return &SpecDB{Contracts: map[string]*Contract{}, Pure: map[string]*PureFn{}, Ghosts: map[string][]*GhostField{}, Locks: map[string]*LockDecl{}}
+	return &SpecDB{Contracts: map[string]*Contract{}, Pure: map[string]*PureFn{}, Ghosts: map[string][]*GhostField{}, Locks: map[string]*LockDecl{}, Shared: map[string]*SharedDecl{}}
 }
 
 // qualify makes "Type.Method" or "Func" into a full key in pkg; names that already
@@ -182,6 +196,7 @@ func (db *SpecDB) LoadFile(path, pkgPath string) error {
 		lnos = append(lnos, ln)
 	}
 	var cur *Contract
+	var curShared *SharedDecl
 	curPkg := pkgPath
 	for i, t := range lines {
 		ln := lnos[i]
@@ -214,6 +229,12 @@ func (db *SpecDB) LoadFile(path, pkgPath string) error {
 			db.Contracts[key] = cur
 			continue
 		case "end":
+			cur = nil
+			curShared = nil
+			continue
+		case "shared":
+			curShared = &SharedDecl{Owner: qualify(curPkg, strings.TrimSpace(rest)), Pkg: curPkg, File: path, Line: ln}
+			db.Shared[curShared.Owner] = curShared
 			cur = nil
 			continue
 		case "pure", "uf", "predicate":
@@ -315,6 +336,19 @@ func (db *SpecDB) LoadFile(path, pkgPath string) error {
 			cur = nil
 			continue
 		}
+		if curShared != nil {
+			switch word {
+			case "locations":
+				curShared.Locations = append(curShared.Locations, strings.Fields(rest)...)
+			case "invariant":
+				curShared.Invariant = rest
+			case "rely":
+				curShared.Rely = rest
+			default:
+				return fmt.Errorf("%s:%d: unknown shared clause %q", path, ln, word)
+			}
+			continue
+		}
 		if cur == nil {
 			return fmt.Errorf("%s:%d: clause %q outside a contract", path, ln, word)
 		}
@@ -397,6 +431,8 @@ func (db *SpecDB) LoadFile(path, pkgPath string) error {
 			cur.Holds = append(cur.Holds, strings.Fields(rest)...)
 		case "unshared":
 			cur.Unshared = true
+		case "ghost_entry":
+			cur.GhostEntry = append(cur.GhostEntry, Clause{Kind: word, Text: rest, File: path, Line: ln})
 		case "ghost_assign":
 			cur.GhostSet = append(cur.GhostSet, Clause{Kind: word, Text: rest, File: path, Line: ln})
 		case "uses":
